@@ -455,10 +455,18 @@ func init() {
 						c19Stable(r, "special-parse-format-parse", fmt.Sprintf("%q", f.s), f.s, true)
 						// the same strings through a Reference element
 						for _, ref := range []*dtpb.Reference{{Reference: &dtpb.Reference_Uri{Uri: fhir.String(f.s)}}, {Type: fhir.URI("Patient"), Reference: &dtpb.Reference_Uri{Uri: fhir.String(f.s)}}} {
-							if pi := core.Try(func() { reference.LiteralInfoOf(ref); reference.IdentityOf(ref); reference.Is(ref, ref) }); pi != nil {
+							var li *reference.LiteralInfo
+							var lerr error
+							if pi := core.Try(func() { li, lerr = reference.LiteralInfoOf(ref); reference.IdentityOf(ref); reference.Is(ref, ref) }); pi != nil {
 								r.Fail("special-element|"+fmt.Sprintf("%q", f.s)+"|"+pi.Key(), core.W{"input": f.s, "panic": pi.Raw})
 							}
 							r.Eval()
+							// a reference that states its type names a resource of that type, whatever the form of its URI
+							if ref.GetType().GetValue() != "" && lerr == nil && li != nil {
+								if t, ok := li.Type(); !ok || string(t) != ref.GetType().GetValue() {
+									r.Fail("special-element|stated-type-lost|"+c19FormClass(f.s), core.W{"input": f.s, "stated_type": ref.GetType().GetValue(), "info": c19Info(li)})
+								}
+							}
 						}
 					}
 				}},
@@ -733,6 +741,16 @@ func init() {
 											r.Fail("edit|reference.IdentityFromURL|disagrees-with-LiteralInfoFromURI", core.W{"input": m, "identity": id.String(), "literal_info": fmt.Sprint(c19Info(li), " ", lerr)})
 										}
 									}
+								}
+								// what a parser accepted can be used: the typed reference and every formatter of the identity return
+								if upi := core.Try(func() {
+									reference.TypedFromIdentity(id)
+									_ = id.String()
+									id.RelativeVersionedURI()
+									id.PreferRelativeVersionedURI()
+									reference.Is(reference.TypedFromIdentity(id), reference.Weak(id.Type(), id.PreferRelativeVersionedURIString()))
+								}); upi != nil {
+									r.Fail("edit|"+pf.name+"|accepted-identity-crashes-its-users|"+upi.Key(), core.W{"input": m, "identity": id.String(), "panic": upi.Raw})
 								}
 								// an accepted string formats to text that the same parser maps to an equal identity
 								back := id.PreferRelativeVersionedURIString()
